@@ -793,6 +793,8 @@ _HANDLERS = {int.__new__: _h_int_new, float.__new__: _h_float_new, str.__new__: 
 
 _SYMSET = frozenset([SymBool, SymInt, SymReal, SymStr, SymTok, NumProxy, RealProxy])
 _PROXYSET = frozenset([SymTok, NumProxy, RealProxy])
+_RE_PATTERN = type(_re.compile('x'))
+_BUILTIN_METHOD2 = type(_re.compile('x').sub)          # 'builtin_method' (a subclass) since CPython 3.12
 _BUILTIN_METHOD = type(''.join)
 _METHOD_DESCR = type(str.join)
 _STR_METHODS_SELF_CONCRETE = {'join', 'replace', 'startswith', 'endswith', 'find', 'rfind', 'index', 'count',
@@ -802,11 +804,22 @@ _STR_METHODS_SELF_CONCRETE = {'join', 'replace', 'startswith', 'endswith', 'find
 
 def _sx_call(f, *args, **kw):
     tf = type(f)
-    if tf is _BUILTIN_METHOD:
+    if tf is _BUILTIN_METHOD or tf is _BUILTIN_METHOD2:
         h = _HANDLERS.get(f)
         if h is not None:
             return h(args, kw)
         s = f.__self__
+        if type(s) is _RE_PATTERN and args:
+            sym = False
+            for a in args:
+                if type(a) in _SYMSET:
+                    sym = True
+                    break
+            if sym:
+                if f.__name__ == 'sub':
+                    return _h_re_sub((s,) + args, kw)
+                raise Unmodelled('re.Pattern.%s on symbolic text' % f.__name__)
+            return f(*args, **kw)
         if type(s) is str and f.__name__ == 'join' and len(args) == 1:
             items = args[0]
             if type(items) not in (list, tuple):
